@@ -91,6 +91,8 @@ def run(res, replay=None):
     import translate_step; (res.proof is not None) and translate_step.run(res.proof, pid=res.pid, tie='sfs')
     # pinned reading of phasegen/utils.py (parallelize is the ordered map the SFS assembly assumes): re-check the CURRENT source against it and proofs/GenUtilsEquiv.v
     import translate_step; (res.proof is not None) and translate_step.run(res.proof, pid=res.pid, tie='utils')
+    # pinned reading of the two-dimensional spectrum class (SFS2.fold / symmetrize / arithmetic of phasegen/spectrum.py, what cov and corr are wrapped in): re-check the CURRENT source against it and proofs/GenSpectrumEquiv.v
+    import translate_step; (res.proof is not None) and translate_step.run(res.proof, pid=res.pid, tie='spectrum')
     # structural tie of the propagation loops (_accumulate, cdf) of phasegen/distributions.py: translate the CURRENT source and re-check proofs/GenLoopsEquiv.v
     import translate_step; (res.proof is not None) and translate_step.run(res.proof, pid=res.pid, tie='loops')
     # structural tie of the moment assembly (accumulate: centring, permutation average - what get_cov runs): translate the CURRENT source and re-check proofs/GenMomentsEquiv.v
